@@ -60,6 +60,13 @@ CHECKS = {
         'note': 'Cancel-safety of FramedRead::next / scc get_async is assumed. FairQueue::poll_next itself is under contract in sequential scope (on Pending the current waker is registered; streams are put back unless ended; items carry the key of their stream); wake-ups from other threads are not modelled. SUB/XPUB recv and proxy() not covered.',
         'technique': 'Verus await-point invariants spliced before each former .await of the extracted recv functions',
     },
+    'C11': {
+        'text': 'Verus proves, on the real text of PubSocket::send and XPubSocket::send: for every subscriber still registered afterwards, its subscription list is untouched and its connection\'s writer was handed the message exactly once if some subscription is a byte-prefix of the first frame (the empty subscription matches everything) and not at all otherwise - also when several subscriptions match. '
+                'The bookkeeping is proved on message_received of both sockets: a one-frame 0x01 message appends its topic, a one-frame 0x00 message removes exactly the first equal topic (nothing if there is none), anything else changes nothing, and only the sender\'s entry can change.',
+        'design_ref': 'DESIGN.md 10.2f',
+        'note': 'Sequential scope. The scc traversal is an assumed cursor model (visits every key once; entry changes are table changes); try_send through Pin is an assumed expression ("handed to the writer", drops at the high-water mark are C12); position(closure) in message_received is an assumed expression. Not covered: per-connection ordering of subscription processing against concurrent sends, XPUB returning subscription messages to the application.',
+        'technique': 'Verus contracts with a prophecy-chained cursor stand-in for the scc traversal; slice comparison proved through vstd slice specs',
+    },
     'C03': {
         'text': 'Every index, slice, get_u8/u32/u64, split_to, advance, expect, arithmetic operation and recursion/loop measure in the byte-reachable synchronous code is a Verus obligation under no precondition but the representation invariant; '
                 'allocation is bounded through a ghost counter on BytesMut::reserve; parsers Verus cannot read are covered by Kani (complete or bounded as labelled).',
@@ -72,7 +79,6 @@ CHECKS = {
 NOT_APPLICABLE = {
     'C05': 'quantifies over arrival schedules and concurrent connect/disconnect; the mechanism (FairQueue::poll_next releasing a parking_lot lock around a checked-out stream, wakers firing on other threads) is outside what Verus (&mut model assumes no interference) or Kani (no threads, crashes on parking_lot, HashMap intractable) can express. Per-call facts that ARE proved, in sequential scope, and reported under C14/C02: poll_next labels an item with the key of the stream it came from, puts every checked-out stream back unless it ended, invents no key; the per-connection decoder yields each complete message exactly once, whole and in order',
     'C06': 'liveness / fairness over adversarial schedules; wake-ups go through &Waker (no state a per-call contract can see)',
-    'C11': 'the prefix filter lives in PubSocket::send behind an scc cursor (OccupiedEntry with user Deref/DerefMut, next_async) and Pin<Box<FramedWrite>>::as_mut().try_send: Verus parses none of these and Kani cannot run scc, so "delivered iff a subscription is a prefix" cannot be decided. (The bookkeeping half - SUBSCRIBE appends, CANCEL removes the first equal topic, anything else changes nothing, only the sender\'s entry changes - IS proved for PUB and XPUB in unit pubsub and reported under C03.)',
     'C12': 'about back-pressure schedules and the Sink polling protocol on Pin<&mut Self>; no per-call contract expresses it',
     'C13': 'about races between subscribe and background accepts; code mutates through a lock guard DerefMut and iterator adapters outside both tools',
     'C15': 'futures::select! expansion and scheduling',
